@@ -11,7 +11,8 @@ Inductive witem := WPoll (gap : list eop) | WEnv (ops : list eop).
 Inductive c13case :=
 | CHist (ops : list hop) (acc closed sacc sclosed : list N) (env : list (N * list mop))
 | CWait (items : list witem)
-| CWaitMT (gap : bool).
+| CWaitMT (gap : bool)
+| CWaitN (n : nat).                 (* n tasks parked in wait_for_connection, then ONE add_connection *)
 
 Definition obs := list (list N).
 Definition b2n (b : bool) : N := if b then 1 else 0.
@@ -119,6 +120,14 @@ Definition c13_model (c : c13case) : obs :=
       let s := if gap then settle 8 (srun [SW; SW; SW; SE (EAdd 1)] (w0 true))
                else settle 8 (srun [SE (EAdd 1)] (settle 8 (w0 true))) in
       [[b2n (lost s); npeers s]]
+  | CWaitN n =>
+      (* every waiter runs to its await (3 steps each), one peer is added, every waiter is polled until it settles:
+         [n; waiters that returned Ok; waiters still parked] *)
+      let park := concat (map (fun i => [MW i; MW i; MW i]) (seq 0 n)) in
+      let wake := concat (repeat (map MW (seq 0 n)) 8) in
+      let m := mrun (park ++ [ME (EAdd 1)] ++ wake) (mw0 n) in
+      let done := length (filter (fun p => match p with PDone true => true | _ => false end) (m_pcs m)) in
+      [[N.of_nat n; N.of_nat done; N.of_nat (n - done)]]
   end.
 
 Definition row_eqb (a b : list N) : bool :=
